@@ -31,6 +31,8 @@ pub(crate) use page_store::{
     PageAllocator, PageHint, PageNumber, PageNumberHashMap, PageNumberHashSet, PageResolver,
     PageTracker, SerializedSavepoint, ShrinkPolicy, TransactionalMemory,
 };
+#[cfg(redb_verif)]
+pub(crate) use page_store::BuddyAllocator;
 pub use page_store::{InMemoryBackend, Savepoint};
 pub(crate) use table_tree::{PageListMut, TableTree, TableTreeMut};
 pub(crate) use table_tree_base::{InternalTableDefinition, TableType};
